@@ -10,7 +10,7 @@ including a different defect on the same program - stays a VIOLATION.
 """
 import contextlib
 import re
-from typing import Any, Callable, Dict, List, Optional, Tuple
+from typing import FrozenSet, Any, Callable, Dict, List, Optional, Tuple
 
 from mc.asm import tokenize
 from mc.machine import explore
@@ -298,6 +298,65 @@ def by_patch(worker: Callable[[Any, Any], None]) -> Callable[[Dict[str, Any], Di
             rerun_cache[rkey] = None if res.errors else [(x["kind"], place_of(x)) for x in res.violations]
         left = rerun_cache[rkey]
         return left is not None and (v["kind"], place_of(v)) not in left
+
+    return attribute
+
+
+def loop_free_path_with_abs_read_exists(src: str) -> bool:
+    """Is there a path entry -> terminating block, with matched calls/returns and no block visited twice within one
+    subroutine activation (the discipline of tealer's path enumeration, which C02 prescribes), that passes through a
+    block reading another transaction by absolute index?"""
+    from mc import abstract  # pylint: disable=import-outside-toplevel
+    from mc.asm import tokenize  # pylint: disable=import-outside-toplevel
+    from mc.refcfg import RefGraph  # pylint: disable=import-outside-toplevel
+
+    g = RefGraph(tokenize(src))
+    if not g.lines:
+        return False
+    sm = abstract.summarize(g)
+    found = [False]
+
+    def dfs(b: int, stack: Tuple[Any, ...], frames: Tuple[FrozenSet[int], ...], seen_abs: bool, depth: int) -> None:
+        if found[0] or depth > 200 or b in frames[-1]:
+            return
+        seen_abs = seen_abs or sm[b].abs_read
+        frames = frames[:-1] + (frames[-1] | {b},)
+        if g.is_callsub_block(b):
+            if len(stack) < 8:
+                dfs(g.callee_entry(b), stack + (g.return_point(b),), frames + (frozenset(),), seen_abs, depth + 1)
+            return
+        if g.is_retsub_block(b):
+            if stack and stack[-1] is not None:
+                dfs(stack[-1], stack[:-1], frames[:-1], seen_abs, depth + 1)
+            return
+        if g.is_leaf(b):
+            if seen_abs:
+                found[0] = True
+            return
+        for t in g.bsucc[b]:
+            dfs(t, stack, frames, seen_abs, depth + 1)
+
+    dfs(0, (), (frozenset(),), False, 0)
+    return found[0]
+
+
+def by_predicate() -> Callable[[Dict[str, Any], Dict[str, Any]], bool]:
+    """Attribution by a predicate on the program (reference graph only), for findings that name one:
+    `abs-read-only-on-looping-paths`: a missed group-size report is attributed iff NO loop-free path (no block twice
+    per activation) from the entry to a terminating block passes through an absolute-index read - i.e. every
+    execution that performs such a read revisits a block, which tealer's path enumeration never does.  If a loop-free
+    path with the read exists the miss has another cause and is reported."""
+
+    def attribute(entry: Dict[str, Any], v: Dict[str, Any]) -> bool:
+        if entry.get("predicate") != "abs-read-only-on-looping-paths":
+            return False
+        if v.get("detail", {}).get("detector") != "group-size-check":
+            return False
+        item = v["item"]
+        src = item[2] if isinstance(item, (list, tuple)) and len(item) >= 3 else None
+        if not isinstance(src, str):
+            return False
+        return not loop_free_path_with_abs_read_exists(src)
 
     return attribute
 
